@@ -71,6 +71,21 @@ pub fn dump() -> Value {
             cased.push(c as u32);
         }
     }
-    json!({"case_ignorable": ignorable, "cased_not_ignorable": cased, "uppercase": upper, "lowercase": Value::Object(lower), "unicase_fold": Value::Object(fold),
+    // general character classes of the real std (compressed as inclusive ranges)
+    fn class(f: impl Fn(char) -> bool) -> Vec<[u32; 2]> {
+        let mut out: Vec<[u32; 2]> = Vec::new();
+        for c in (0x80u32..0x110000).filter_map(char::from_u32) {
+            if f(c) {
+                match out.last_mut() {
+                    Some(r) if r[1] + 1 == c as u32 => r[1] = c as u32,
+                    _ => out.push([c as u32, c as u32]),
+                }
+            }
+        }
+        out
+    }
+    let classes = json!({"is_alphabetic": class(char::is_alphabetic), "is_numeric": class(char::is_numeric), "is_alphanumeric": class(char::is_alphanumeric),
+                         "is_lowercase": class(char::is_lowercase), "is_whitespace": class(char::is_whitespace), "is_control": class(char::is_control)});
+    json!({"classes": classes, "case_ignorable": ignorable, "cased_not_ignorable": cased, "uppercase": upper, "lowercase": Value::Object(lower), "unicase_fold": Value::Object(fold),
            "rustc": option_env!("RUSTC_VERSION").unwrap_or("")})
 }
